@@ -113,8 +113,10 @@ class LazyLogging(SimpleCodemod, NameAndAncestorResolutionMixin):
             # Do not change explicit str concat, e.g.: `logging.info("one" + "two")
             return None
 
-        if isinstance(binop.left, cst.SimpleString) and "%" in binop.left.value:
-            # Do no change `logging.info("Something: %s " + var)` since intention is unclear
+        if any("%" in piece.value for piece in self._string_pieces(binop)):
+            # Do no change `logging.info("Something: %s " + var)` since intention is unclear.
+            # A `%` in any other piece (`"a " + var + " 100%"`) would likewise end up
+            # inside the format string, where logging reads it as a directive.
             return None
         left_type = infer_expression_type(self.resolve_expression(binop.left))
         right_type = infer_expression_type(self.resolve_expression(binop.right))
